@@ -250,4 +250,47 @@ theorem plusbuild_conversion_is_go (c : Ctx) (lns : List PlusLine) (h : WfLines 
 /-- non-vacuity: the two-line example is well-formed and both syntaxes give `true` -/
 example : WfLines exLines = true ∧ (linesG exLines).evalY ctxLinux = true ∧ linesOkY ctxLinux exLines = true := by decide
 
+/-! ### release words, and what an evaluation depends on -/
+
+/-- **every release word up to the toolchain's own is satisfied**, whatever the context's tags, OS,
+    architecture and compiler: `go1.1 … go1.minor` hold (the guarantee `go1.N` implies all earlier ones) -/
+theorem release_words_downward (c : Ctx) (n : Nat) (h1 : 1 ≤ n) (hn : n ≤ c.minor) : tagOkY c (.rel n) = true := by
+  unfold tagOkY; split
+  · rfl
+  · simp [h1, hn]
+
+/-- … and a later release word holds only if the context carries it as an explicit tag -/
+theorem release_word_above (c : Ctx) (n : Nat) (hn : c.minor < n) (h : tagOkY c (.rel n) = true) :
+    matchTagY c (TagName.rel n).render = true := by
+  unfold tagOkY at h; split at h
+  · assumption
+  · simp at h; omega
+
+/-- the tags an expression mentions -/
+def gtags : GExpr → List TagName
+  | .tag t => [t]
+  | .not e => gtags e
+  | .and a b => gtags a ++ gtags b
+  | .or a b => gtags a ++ gtags b
+
+/-- **an evaluation depends on nothing but the answers to the words it mentions**: two contexts that
+    answer every word of the expression alike give the same result (no hidden dependence on the rest of
+    the context — other tags, or OS/arch when the expression does not name them) -/
+theorem eval_depends_on_mentioned_tags (c c' : Ctx) (e : GExpr)
+    (h : ∀ t ∈ gtags e, tagOkY c t = tagOkY c' t) : e.evalY c = e.evalY c' := by
+  induction e with
+  | tag t => simp only [GExpr.evalY]; exact h t (by simp [gtags])
+  | not e ih => simp only [GExpr.evalY]; rw [ih h]
+  | and a b iha ihb =>
+    simp only [GExpr.evalY]
+    rw [iha (fun t ht => h t (by simp [gtags, ht])), ihb (fun t ht => h t (by simp [gtags, ht]))]
+  | or a b iha ihb =>
+    simp only [GExpr.evalY]
+    rw [iha (fun t ht => h t (by simp [gtags, ht])), ihb (fun t ht => h t (by simp [gtags, ht]))]
+
+/-- non-vacuity: linux/amd64 and linux/arm64 answer `linux && go1.18` alike, and differently on `amd64` -/
+example : (∀ t ∈ gtags (GExpr.and (.tag (.word "linux")) (.tag (.rel 18))),
+      tagOkY ctxLinux t = tagOkY { ctxLinux with goarch := "arm64" } t) ∧
+    tagOkY ctxLinux (.word "amd64") ≠ tagOkY { ctxLinux with goarch := "arm64" } (.word "amd64") := by decide
+
 end YaegiVerif.Props.C17
